@@ -31,7 +31,7 @@ impl KeepAlive {
         let mut quit = false;
         for a in hist {
             match a {
-                Act::Tick => {
+                Act::Tick | Act::TickReverse => {
                     now += 1;
                     if now % self.ping == 0 && outstanding.is_none() {
                         outstanding = Some(now);
@@ -97,7 +97,9 @@ impl Scenario for KeepAlive {
         1 + (crate::canon::hash128(&(now, outstanding, quit)) as u64 >> 1)
     }
     fn actions(&self, v: &View) -> Vec<Act> {
-        let mut acts = vec![Act::Tick];
+        // when the ping tick and the pong deadline fall into the same second the server's select!
+        // may serve them in either order
+        let mut acts = vec![Act::Tick, Act::TickReverse];
         if v.life[0] == Life::Live {
             acts.push(Act::Send(0, "PONG :LALAL".into()));
             // "PONG with any token": another token, and the two-parameter form
@@ -126,7 +128,7 @@ impl Scenario for KeepAlive {
     fn step_oracle(&self, pre: &View, obs: &StepObs, post: &View, goals: &mut BTreeSet<String>) -> Vec<Finding> {
         let mut out = vec![];
         match &obs.act {
-            Act::Tick => {
+            Act::Tick | Act::TickReverse => {
                 if pre.life[0] == Life::Live {
                     let pinged = obs.lines[0].iter().any(|l| l.contains(" PING "));
                     // seconds since the registration completed (the prelude may have waited before it)
